@@ -395,7 +395,7 @@ func init() {
 	core.Register(&core.Prop{
 		ID:    "C15",
 		Level: "exploration",
-		Rule: "source and destination trees (<=14 entries each, depth<=3) are generated independently over the shared names {a,b,ab,c,d,e,...,..a} (two legal names made of or starting with dots); source types f,d,l,fifo,char, destination additionally sockets, so every (source type, destination type) pair collides. " +
+		Rule: "A third of the cases plant destination files with the size and mtime of the source file of the same path and other bytes; one destination in fourteen is spelled 'x/zz9/..'. source and destination trees (<=14 entries each, depth<=3) are generated independently over the shared names {a,b,ab,c,d,e,...,..a} (two legal names made of or starting with dots); source types f,d,l,fifo,char, destination additionally sockets, so every (source type, destination type) pair collides. " +
 			"src argument: a source entry, the root ('.', '/', '/.', ''), 'dir/.', or a wildcard ('*','a*','?','[a-c]*','dir/*','*/a'); dst argument: existing directory / non-directory, new name, nested not-yet-existing 'n1/n2', the root, a path below a non-directory; optional leading and trailing separator; flags = random subset of {CopyDirContents, AlwaysReplace, AllowWildcards}. About one case in twelve spells the source 'x/.' for an entry x of any type (three quarters non-directories: it behaves exactly like 'x'; violations there are reported as nondir-dot-source), one in twenty-four copies a directory (directory-contents off) onto an existing non-directory (rule 5: conflict, obstacle stays; with always-replace the source wins - reported as dir-over-nondir-always-replace). No argument traverses a symlink (C14 does that). " +
 			"fs.Copy runs on disk in a chroot jail and is compared with the executable overlay model (rules 1-7 of DESIGN C15): expected success => snapshot equals the model in paths, types, bytes, targets, rdev, mode/owner (not for directories made only for the path; an existing top-level landing directory keeps its own) and xattrs (nested merged directories: source's added, old ones may stay), unrelated entries keep inode and bytes; expected error => the call fails and the obstacle (with its subtree) keeps inode, type, bytes. A wildcard source is modelled as the sequence of single-source copies of its matches in walk order, each one re-evaluating whether dst exists and is a directory (also when dst does not exist yet or is a non-directory: the first match creates/replaces it, the later ones meet the result); one case in seven is drawn for exactly that: a pattern with >=2 matches whose first match is a directory (the lexically first source entry is turned into a directory in two thirds of them) onto a not-yet-existing plain or nested dst. Any outcome is accepted (and counted by reason) only for: a wildcard without matches, a wildcard prefix that is not a plain directory, and a dst that is a symlink or that an earlier match of the same call turned into a symlink (where later matches go is symlink resolution, C14). " +
 			"Every successful copy is repeated: the second run is checked against the model applied to the first result, and when the landing path is the same the two snapshots must agree in everything but inode/ctime/atime and the mtime of proper ancestors of the landing path. " +
@@ -752,6 +752,25 @@ func c15Run(c *core.Ctx) *core.Result {
 	dstT := c15Tree(c.R, "dst")
 	if c.R.P(1, 12) {
 		dstT = &tree.Tree{} // empty destination
+	}
+	// destination files that look like the source file of the same path to
+	// a quick check - same size, same time stamp - and hold other bytes
+	// (two trees stamped with one epoch, an edit that kept the mtime)
+	if tr := core.NewRand(core.Mix(c.Seed, "C15-same-size-and-mtime", c.Index)); tr.P(1, 3) {
+		for i := range dstT.Entries {
+			d := &dstT.Entries[i]
+			se := srcT.Get(d.Path)
+			if se == nil || se.Type != tree.File || d.Type != tree.File || se.LinkTo != "" || d.LinkTo != "" || srcT.GroupOf(se.Path) != "" || dstT.GroupOf(d.Path) != "" || !tr.P(2, 3) {
+				continue
+			}
+			nd := append([]byte(nil), se.Data...)
+			copy(nd, "dst")
+			if string(nd) == string(se.Data) {
+				continue
+			}
+			d.Data, d.Mtime = nd, se.Mtime
+			r.Count("destination_files_with_the_size_and_mtime_of_the_source_file", 1)
+		}
 	}
 	// a fixed share of cases: wildcard with several matches, the first of
 	// them a directory, onto a destination that does not exist yet - the
